@@ -53,5 +53,12 @@ CHECKS = {
    text="create_prince_wordlist writes at most --size words, the first N of the unbounded stream (loop invariant over the log of popped pre-terminals); write_guess_to_file appends guess+LF; "
         "save_to_file redirects the single output point only with a filename; prince_evaluation tallies every label once. Bounded: the real CLI around a group boundary, file vs stdout.",
    note="order/exactly-once are C01/C02 via next()'s contract; A-WFX; prince_ling.main not under contract"),
+ 'C05': dict(level='other', technique=TECH + "; ghost cut-point list for the tiling invariant; keyboard/multi-word by bounded stand-ins",
+   text="For all strings: every detect_* returns the section unchanged or 1-3 parts that tile it, carving exactly the first maximal digit/letter run, the first valid year, "
+        "the first occurrence of a listed context string, an e-mail prefix or a website interval, labels stating true lengths; every *_detection loop keeps "
+        "'the section list tiles the password'; other_detection leaves nothing unlabelled; base_structure_creation never raises; counters tally the found lists. "
+        "Bounded: keyboard walks, multi-word splitting, alpha_detection's list loop, the end-to-end pipeline (exhaustive small strings), lower_keep_length (all code points).",
+   note="string theory is an uninterpreted sort with slice/concat axioms; lower() has no length axiom (precondition in detect_alpha); detect_keyboard_walk, MultiWordDetector.parse "
+        "and alpha_detection's list loop are trusted in the deductive part"),
 }
 NOT_APPLICABLE = {}
